@@ -3,8 +3,10 @@ package prog
 import (
 	"context"
 	"errors"
+	"regexp"
 	goruntime "runtime"
 	"strings"
+	"time"
 
 	zed "github.com/brimdata/super"
 	"github.com/brimdata/super/compiler"
@@ -12,19 +14,33 @@ import (
 	"github.com/brimdata/super/zio"
 )
 
-// Exec builds job over readers, pulls the flowgraph to end of stream and
-// returns copies of the output values.  Before returning it cancels the
-// runtime context, waits for the operators that register with its WaitGroup
-// (sort, summarize: spill clean-up) and lets the remaining operator
-// goroutines (fork, combine, merge, switch: they exit on cancellation) run off.
-func Exec(rctx *runtime.Context, job *compiler.Job, readers ...zio.Reader) (vals []zed.Value, err error) {
-	base := goruntime.NumGoroutine()
-	defer func() {
-		rctx.Cancel()
-		for i := 0; i < 2000 && goruntime.NumGoroutine() > base; i++ {
-			goruntime.Gosched()
-		}
-	}()
+// Runtime is a runtime context whose cancellation the harness controls.
+type Runtime struct {
+	*runtime.Context
+	cancelParent context.CancelFunc
+}
+
+// NewRuntime returns a runtime context over zctx.
+func NewRuntime(zctx *zed.Context) *Runtime {
+	ctx, cancel := context.WithCancel(context.Background())
+	return &Runtime{Context: runtime.NewContext(ctx, zctx), cancelParent: cancel}
+}
+
+// ErrDeadlock is returned by Exec when the flowgraph stopped making progress:
+// every goroutine that is inside the code under test is blocked on a channel
+// operation (none is running, runnable, sleeping or in a system call) and the
+// set of their stacks did not change over several observations.  This is a
+// statement about the state of the goroutines, not a time limit: a slow but
+// live flowgraph always has a runnable goroutine or changes its stacks.
+var ErrDeadlock = errors.New("deadlock: all flowgraph goroutines are blocked on channel operations")
+
+// BuildError wraps an error of the flowgraph builder (as opposed to a runtime error).
+type BuildError struct{ Err error }
+
+func (e *BuildError) Error() string { return "build: " + e.Err.Error() }
+func (e *BuildError) Unwrap() error { return e.Err }
+
+func pullAll(job *compiler.Job, readers []zio.Reader) (vals []zed.Value, err error) {
 	if err := job.Build(readers...); err != nil {
 		return nil, &BuildError{err}
 	}
@@ -47,15 +63,103 @@ func Exec(rctx *runtime.Context, job *compiler.Job, readers ...zio.Reader) (vals
 	}
 }
 
-// BuildError wraps an error of the flowgraph builder (as opposed to a runtime error).
-type BuildError struct{ Err error }
+type execResult struct {
+	vals []zed.Value
+	err  error
+}
 
-func (e *BuildError) Error() string { return "build: " + e.Err.Error() }
-func (e *BuildError) Unwrap() error { return e.Err }
+// Exec builds job over readers, pulls the flowgraph to end of stream and
+// returns copies of the output values.  Before returning it cancels the
+// runtime context, waits for the operators that register with its WaitGroup
+// (sort, summarize: spill clean-up) and lets the remaining operator
+// goroutines (fork, combine, merge, switch: they exit on cancellation) run
+// off.  If the flowgraph deadlocks, Exec cancels it and returns ErrDeadlock.
+func Exec(rt *Runtime, job *compiler.Job, readers ...zio.Reader) ([]zed.Value, error) {
+	base := goruntime.NumGoroutine()
+	done := make(chan execResult, 1)
+	go func() {
+		vals, err := pullAll(job, readers)
+		done <- execResult{vals, err}
+	}()
+	var res execResult
+	deadlock := false
+	tick := time.NewTicker(150 * time.Millisecond)
+	defer tick.Stop()
+	var prev string
+	same := 0
+wait:
+	for {
+		select {
+		case res = <-done:
+			break wait
+		case <-tick.C:
+			snap, blocked := flowgraphSnapshot()
+			if blocked && snap == prev {
+				same++
+			} else {
+				same = 0
+			}
+			prev = snap
+			if same >= 4 {
+				deadlock = true
+				rt.cancelParent()
+				select {
+				case res = <-done:
+				case <-time.After(10 * time.Second):
+					// the flowgraph does not even react to cancellation; leave it behind
+					res = execResult{}
+				}
+				break wait
+			}
+		}
+	}
+	rt.cancelParent()
+	if !deadlock {
+		rt.Cancel() // waits for spill clean-up
+	}
+	for i := 0; i < 2000 && goruntime.NumGoroutine() > base; i++ {
+		goruntime.Gosched()
+	}
+	if deadlock {
+		return res.vals, ErrDeadlock
+	}
+	return res.vals, res.err
+}
 
-// NewRuntime returns a runtime context over zctx.
-func NewRuntime(zctx *zed.Context) *runtime.Context {
-	return runtime.NewContext(context.Background(), zctx)
+var durRE = regexp.MustCompile(`, \d+ minutes?`)
+var addrRE = regexp.MustCompile(`0x[0-9a-f]+|\+0x[0-9a-f]+|goroutine \d+`)
+
+// flowgraphSnapshot returns a canonical rendering of the stacks of the
+// goroutines that are inside the code under test and whether all of them are
+// blocked on channel/synchronisation operations.
+func flowgraphSnapshot() (string, bool) {
+	buf := make([]byte, 1<<20)
+	buf = buf[:goruntime.Stack(buf, true)]
+	var keep []string
+	blocked := true
+	n := 0
+	for _, g := range strings.Split(string(buf), "\n\n") {
+		if !strings.Contains(g, "github.com/brimdata/super/") {
+			continue
+		}
+		n++
+		head := g
+		if i := strings.IndexByte(g, '\n'); i >= 0 {
+			head = g[:i]
+		}
+		switch {
+		case strings.Contains(head, "[chan receive"), strings.Contains(head, "[chan send"), strings.Contains(head, "[select"),
+			strings.Contains(head, "[semacquire"), strings.Contains(head, "[sync."):
+		default:
+			blocked = false
+		}
+		g = durRE.ReplaceAllString(g, "")
+		keep = append(keep, addrRE.ReplaceAllString(g, ""))
+	}
+	if n == 0 {
+		return "", false
+	}
+	return strings.Join(keep, "\n\n"), blocked
 }
 
 // IsPanic tells whether a runtime error is a recovered panic of an operator.
